@@ -87,6 +87,16 @@ impl<'a> G<'a> {
         }
         out
     }
+    /// an int key with a uint query, or the other way round, from the boundary sets
+    fn cross_keys(&mut self) -> (T, T) {
+        const IK: &[i64] = &[-1, -2, i64::MIN, i64::MIN + 1, 0, 1, i64::MAX, -9223372036854775807];
+        const UQ: &[u64] = &[u64::MAX, u64::MAX - 1, 9223372036854775808, 9223372036854775809, 0, 1, 9223372036854775807, 9223372036854775809];
+        let i = *self.rng.pick(IK);
+        let u = if self.rng.chance(1, 2) { *self.rng.pick(UQ) } else { i as u64 };
+        let it = t(lit_i(i), format!("(lit (int {}))", i), 0);
+        let ut = t(format!("{}u", u), format!("(lit (uint {}))", u), 0);
+        if self.rng.chance(1, 2) { (it, ut) } else { (ut, it) }
+    }
     fn var(&self, n: &str) -> T {
         t(n.to_string(), format!("(var {})", sx_str(n)), 0)
     }
@@ -508,7 +518,16 @@ impl<'a> G<'a> {
                 _ => self.leaf(ty),
             },
             CT::M(_, _) => self.leaf(ty),
-            CT::Any => match self.rng.below(6) {
+            CT::Any => match self.rng.below(7) {
+                6 => {
+                    // a map literal with a numeric key, asked for the key's twin of the other
+                    // integer kind, at the boundaries (an absent index is null)
+                    let (k, q) = self.cross_keys();
+                    let vt = self.scalar();
+                    let v = self.gen(&vt, d.min(1));
+                    let m = t(format!("{{{}: {}}}", k.src, v.src), format!("(tmap ({} {}))", k.wire, v.wire), k.ops + v.ops);
+                    self.bin("index", &m, &q, |a, b| format!("({})[{}]", a, b))
+                }
                 0 | 1 => {
                     // index into a list or a map
                     if self.rng.chance(1, 2) {
